@@ -563,3 +563,14 @@ Lemma acc_needs_prior_not_pinf :
   exists pool k, acc_populate exact_sub true None 1 1000 witness_batches [] = Done (pool, true, k) /\
                  exists c, In c pool /\ lp c = PInf.
 Proof. eexists. eexists. split; [vm_compute; reflexivity|]. eexists. split; [left; reflexivity|reflexivity]. Qed.
+
+(* the pre-fix backward_pass (z not masked): one non-finite flow log-density in a batch aborts a population that the
+   repaired code completes *)
+Definition z_unmasked_witness : list batch :=
+  [ {| cands := [w_cand 0 (Fin (-2) 0);
+                 {| cid := 1; lq := NaN; lj := Fin 0 0; inb := true; lp := Fin (-2) 0 |}];
+       us := [Fin (-1) 0]; attempt := false |} ].
+Lemma backward_pass_z_unmasked_refuted :
+  flow_populate exact_sub true None 1 z_unmasked_witness = Raised /\
+  flow_populate exact_sub false None 1 z_unmasked_witness = Done ([w_cand 0 (Fin (-2) 0)], 0).
+Proof. vm_compute. split; reflexivity. Qed.
